@@ -49,6 +49,7 @@ func FileHandler(path string) (AuthenticationHandler, error) {
 	defer fd.Close()
 	reader := csv.NewReader(fd)
 	reader.Comma = ':'
+	reader.FieldsPerRecord = -1
 	records, err := reader.ReadAll()
 	if err != nil {
 		return nil, err
